@@ -1327,8 +1327,12 @@ func (c *Ctx) c13Captcha(f *ircFacts) {
 				if fn != nil && isFunc(fn, "crypto/hmac", "Equal") && fct.Val {
 					mac = true
 				}
-				if fn != nil && isFunc(fn, "strings", "HasPrefix") && fct.Val && len(call.Args) == 2 {
-					if s, ok := astx.ConstString(info, call.Args[1]); ok && s == "okay:" {
+				if fn != nil && (isFunc(fn, "strings", "HasPrefix") || isFunc(fn, "bytes", "HasPrefix")) && fct.Val && len(call.Args) == 2 {
+					arg := ast.Unparen(call.Args[1])
+					if conv, ok := arg.(*ast.CallExpr); ok && astx.IsConversion(info, conv) && len(conv.Args) == 1 {
+						arg = conv.Args[0] // []byte("okay:")
+					}
+					if s, ok := astx.ConstString(info, arg); ok && s == "okay:" {
 						prefix = true
 					}
 				}
